@@ -14,6 +14,11 @@ macro_rules! int_tok { ($($t:ident),+) => { $(impl Tok for $t {
     fn tok(t: &str) -> $t { match t {
         "max" => $t::MAX, "min" => $t::MIN, "zero" => 0, "one" => 1, "two" => 2, "mid" => $t::MAX / 2, "seven" => 7, "hundred" => 100,
         "neg1" => (0 as $t).wrapping_sub(1), "big" => $t::MAX - 1, "p200" => 200u64 as $t, "p70000" => 70000u64 as $t,
+        // values on which a conversion routed through an intermediate type (f64, f32, i64) differs from the direct one:
+        // just above an f32 rounding midpoint that f64 cannot see / not representable in f32 / in f64
+        "dr1" => if $t::BITS >= 64 { ((1u64 << 60) + (1u64 << 36) + 1) as $t } else if $t::BITS >= 32 { ((1u64 << 24) + 1) as $t } else { 99 },
+        "dr2" => if $t::BITS >= 64 { ((1u64 << 53) + 1) as $t } else if $t::BITS >= 32 { ((1u64 << 30) + (1u64 << 6) + 1) as $t } else { 101 },
+        "ndr1" => (0 as $t).wrapping_sub(if $t::BITS >= 64 { ((1u64 << 60) + (1u64 << 36) + 1) as $t } else if $t::BITS >= 32 { ((1u64 << 24) + 1) as $t } else { 99 }),
         _ => 3 } }
 })+ } }
 int_tok!(i8, i16, i32, i64, isize, u8, u16, u32, u64, usize);
@@ -22,6 +27,8 @@ macro_rules! flt_tok { ($($t:ident),+) => { $(impl Tok for $t {
         "max" => $t::MAX, "min" => $t::MIN, "zero" => 0.0, "one" => 1.0, "two" => 2.0, "mid" => 1.0e9, "seven" => 7.0, "hundred" => 100.0,
         "neg1" => -1.0, "big" => 3.0e38, "p200" => 200.0, "p70000" => 70000.0, "nan" => $t::NAN, "inf" => $t::INFINITY, "ninf" => $t::NEG_INFINITY,
         "half" => 0.5, "nhalf" => -0.5, "huge" => 1.0e19,
+        "dr1" => (1.0f64 + 5.9604644775390625e-8 + 8.881784197001252e-16) as $t, "dr2" => (1.0f64 + 9.094947017729282e-13) as $t, "ndr1" => -(1.0f64 + 5.9604644775390625e-8 + 8.881784197001252e-16) as $t,
+        "frac" => 2.75, "nfrac" => -2.75, "tiny" => 1.0e-40, "edge" => 2147483648.0, "nedge" => -2147483649.0, "u8edge" => 255.5, "negfrac" => -0.75,
         _ => 3.0 } }
     fn same(a: $t, b: $t) -> bool { a == b || (a.is_nan() && b.is_nan()) }
 })+ } }
